@@ -481,10 +481,12 @@ def relayout_cell(cell, o_dim, ri_dim):
 def w_dt_inv(S, item):
     """C11: inverse DTCWT on arbitrary pyramids; absent (None / 0-dim) levels.
     item = (biort, qshift, H, W, J, nb, c, o_dim, ri_dim, absent_mask, absent_kind, low_absent)"""
-    biort, qshift, H, W, J, nb, c, o_dim, ri_dim, absent_mask, absent_kind, low_absent = item
+    biort, qshift, H, W, J, nb, c, o_dim, ri_dim, absent_mask, absent_kind, low_absent = item[:12]
+    mode = item[12] if len(item) > 12 else 'symmetric'
     res = {'cmp': 1, 'diff': 0, 'findings': [], 'sample': None}
+    kw = {} if mode == 'symmetric' else {'mode': mode}
     g = S.construct(D2, 'DTCWTInverse', biort=filt_arg(S, biort, 'i'), qshift=filt_arg(S, qshift, 'i'), o_dim=o_dim,
-                    ri_dim=ri_dim)
+                    ri_dim=ri_dim, **kw)
     (bl, yl), hs = pyramid_bases(nb, c, H, W, J, o_dim, ri_dim)
     present = [not (absent_mask >> j) & 1 for j in range(J)]
 
@@ -511,6 +513,35 @@ def w_dt_inv(S, item):
         res['findings'].append(exc_finding(S, o, construct, '%s:%s' % (opt, size_class)))
         return res
     y = o.value
+    if mode != 'symmetric':
+        # no external reference for the other padding modes: absent entries must equal explicit zeros of the right
+        # shape given to the same module
+        from .. import ops as _ops
+        zl = yl if not low_absent else _ops.retag_dims(_ops.zeros(yl.shape, 'in'), yl.dims)
+        zh = ArgList([h[1] if p else _ops.retag_dims(_ops.zeros(h[1].shape, 'in'), h[1].dims)
+                      for h, p in zip(hs, present)])
+        o0 = S.run(S.method(g, 'forward'), (zl, zh))
+        problems = []
+        if o0.kind != 'ok':
+            problems.append(('raises', 'the same call with explicit zeros raises %s' % getattr(o0.exc, 'name', o0.exc)))
+        else:
+            pr = tensors_same(o0.value, y)
+            if pr:
+                problems.append(('values', 'absent entries are not treated as zeros: ' + pr))
+        if problems:
+            res['diff'] = 1
+            what, msg = problems[0]
+            res['findings'].append(finding('NF', construct, '%s,mode=%s:%s:%s' % (opt, mode, size_class, what),
+                                           'biort=%s qshift=%s HxW=%dx%d J=%d mode=%s absent=%s(%s) low_absent=%s: %s'
+                                           % (biort, qshift, H, W, J, mode, bin(absent_mask), absent_kind, low_absent, msg),
+                                           anchor=anchor(S, D2, 'DTCWTInverse', 'forward'), detail={'config': list(item)}))
+        else:
+            res['sample'] = {'config': dict(biort=biort, qshift=qshift, H=H, W=W, J=J, mode=mode, absent_mask=absent_mask,
+                                            absent_kind=absent_kind, low_absent=low_absent),
+                             'verdict': 'equals the call with explicit zeros'}
+        for fi in S.take_findings():
+            res['findings'].append(fi.as_dict())
+        return res
     Z, (er, ec) = ref_inverse(S, bl, [h[0] if p else None for h, p in zip(hs, present)], H, W, biort, qshift, J,
                               low_present=not low_absent)
     problems = []
